@@ -56,6 +56,82 @@ def run(chk: harness.Check):
     d5_sections(chk, F)
     d6_intermediate(chk, F)
     d7_text_nonempty(chk, F)
+    d8_timer_nonempty(chk, F)
+
+
+def _variant_defs(f, op, variant, depth=0, seen=None):
+    """assignment sites (block, stmt) of `Option::<variant>` that can flow into operand `op` through moves/copies"""
+    seen = seen if seen is not None else set()
+    p = op.get("move") or op.get("copy")
+    if p is None or p["p"] or depth > 8:
+        return []
+    l = p["l"]
+    if l in seen:
+        return []
+    seen.add(l)
+    out = []
+    for d in f.defs.get(l, []):
+        if d[0] != "stmt":
+            continue
+        st = d[3]
+        rv = st["rv"]
+        if rv["k"] == "agg" and rv.get("agg") == "adt" and norm(rv["adt"]).endswith("option::Option"):
+            if rv["variant"] == variant:
+                out.append((d[1], st))
+        elif rv["k"] == "use":
+            out += _variant_defs(f, rv["op"], variant, depth + 1, seen)
+    return out
+
+
+def d8_timer_nonempty(chk, F):
+    """Every timer has a name or a quantity: in parser::step::timer every path from `name = None` to the Timer construction
+    passes the not-none outcome of a test of `quantity` or an assignment `quantity = Some(..)`."""
+    from cfgq import call_result_edges, must_pass
+    fs = [g for g in F.find("parser::step::timer") if not g.is_closure()]
+    if len(fs) != 1:
+        chk.fail("anchor-missing", "parser::step::timer", "", "anchor-missing: parser::step::timer not found")
+        return
+    f = fs[0]
+    aggs = [(ff, i, st, d) for ff, i, st, d in aggregates(F, f.key, "model::Timer") if ff is f and "name" in d and "quantity" in d]
+    if not aggs:
+        chk.fail("anchor-missing", "Timer construction", f"{f.file}:{f.line}", "anchor-missing: no Timer { name, quantity } construction in parser::step::timer")
+        return
+    ff, ai, ast_, d = aggs[0]
+    none_name = _variant_defs(f, d["name"], "None")
+    chk.floor("C06.D8-timer-nonempty", "`name = None` sites", len(none_name), 1, f"{f.file}:{f.line}")
+    some_q = {b for b, _ in _variant_defs(f, d["quantity"], "Some")}
+    K = set(some_q)
+    # the local that holds `quantity`
+    qp = d["quantity"].get("move") or d["quantity"].get("copy")
+    for b, t in f.calls():
+        k = callee_key(t) or ""
+        if k.endswith(("Option::<T>::is_none", "Option::<T>::is_some")):
+            txt = full_text(arg_expr(f, t, 0))
+            if "quantity" not in txt:
+                continue
+            te, fe = call_result_edges(f, b)
+            for (u, v) in (fe if k.endswith("is_none") else te):
+                if [x for x in f.live if v in f.succ[x]] == [u]:
+                    K.add(v)
+    # paths that start at `name = None` cannot take the not-none outcome of a later test of `name` (name is not reassigned)
+    infeasible = set()
+    for b, t in f.calls():
+        k = callee_key(t) or ""
+        if k.endswith(("Option::<T>::is_none", "Option::<T>::is_some")):
+            txt = full_text(arg_expr(f, t, 0))
+            if "φ[name]" in txt or txt.lstrip("&(*").startswith("name"):
+                te, fe = call_result_edges(f, b)
+                infeasible |= set(fe if k.endswith("is_none") else te)
+    starts = [b for b, _ in none_name]
+    ok = bool(starts)
+    for b in starts:
+        reach = f.reach_from(b, removed_edges=infeasible, removed_nodes=K - {b})
+        if ai in reach:
+            ok = False
+    chk.expect(ok, "C06.D8-timer-nonempty", "timer|name or quantity", f"{f.file}:{ast_.get('line')}",
+               "a path builds Timer { name: None, .. } without having established that the quantity is present (test of `quantity` or `quantity = Some(..)` "
+               "after the name was found empty): a timer with neither name nor quantity reaches the model",
+               sample=f"{f.file}:{ast_.get('line')}: every path from `name = None` to Timer{{..}} passes quantity.is_none()==false or quantity = Some(..)")
 
 
 def d7_text_nonempty(chk, F):
